@@ -124,6 +124,20 @@ def step (bl : Blobs) : List String → Blobs × String
             | .ok (i, ini, f) => (bl, s!"A:{i};{ini};" ++ ",".intercalate (f.map foundStr))
       | _, _ => (bl, "bad-op")
     | _, _, _, _ => (bl, "bad-op")
+  -- seq <layout> <op>* with <op> = i:<int> | k:<kind index> : the object's (init, excluded flags) after every assignment
+  | "seq" :: l :: ops => match getLayout l with
+    | some (d, _) =>
+      let parseOp (s : String) : Option InitOp :=
+        if s.startsWith "i:" then (s.drop 2).toString.toInt?.map InitOp.byInt
+        else if s.startsWith "k:" then (s.drop 2).toString.toNat?.map InitOp.byKind else none
+      match ops.mapM parseOp with
+      | none => (bl, "bad-op")
+      | some os =>
+        let (_, outs) := os.foldl (fun (acc : ObjState × List String) op =>
+          let s' := stepOp d.segs acc.1 op
+          (s', acc.2 ++ [s!"{s'.init}:{bits s'.excl}"])) (freshObj d.segs, [])
+        (bl, "S:" ++ ",".intercalate outs)
+    | none => (bl, "bad-op")
   | "parse" :: l :: fs :: binId :: toks => match getLayout l, parseBool fs, bl.get? binId, lookupToks bl toks with
     | some (d, _), some fcbSup, some bin, some raws =>
       if raws.length ≠ d.segs.length then (bl, "bad-op") else
